@@ -203,15 +203,25 @@ def corpus_c13(prop):
 def run_c13(prop, cfg, tier, seed):
     core.ensure_built()
     viol, kf, n = corpus_c13(prop)
+    # regenerated obligations: the front-end grammars (pigeon.peg, bootstrap.peg) as the working tree's pigeon lowers
+    # them terminate on every input (kernel-checked on every run)
+    from . import gram_check
+    gviol, gcov = gram_check.for_property(prop)
+    gcov["corpus_runs"] = n
     return generic(prop, cfg, tier, seed,
                    [("pvtool", 700, 12000, ["-lift", "optthrow"], {"norecoverpanic": "F4"})],
-                   extra_viol=viol, extra_cov={"corpus_runs": n}, extra_kf=kf)
+                   extra_viol=viol + gviol, extra_cov=gcov, extra_kf=kf)
 
 
 def run_c04(prop, cfg, tier, seed):
     extra = [] if tier == "quick" else ["-all-flags"]
+    core.ensure_built()
+    # regenerated obligations: the parameter lists pigeon emits for every grammar of the repository are the ones the model
+    # of the generator's label stack assigns (kernel-checked on every run)
+    from . import gram_check
+    gviol, gcov = gram_check.for_property(prop)
     return generic(prop, cfg, tier, seed,
-                   [("pve2e", 30, 250, extra, {"optduplabels": "D5"})])
+                   [("pve2e", 30, 250, extra, {"optduplabels": "D5"})], extra_viol=gviol, extra_cov=gcov)
 
 
 def run_c09(prop, cfg, tier, seed):
